@@ -135,9 +135,52 @@ def run(ctx):
                         flds.add(p['n'])
     ctx.ob('C03.4', sid, 'stream-id-is-session-id', flds == {'session_id'}, 'stream_id reads field(s) %s' % sorted(flds))
 
+    c035(ctx)
     # ---------------------------------------------------------------- C03.1
     serde_table.check(ctx)
 
 
 def _is_def_of(f, local, bb):
     return any(d[0] == bb for d in f.defs(local))
+
+
+def c035(ctx):
+    """the full sidecar mirrors EVERY continuity frame: in append_best_effort the only ways
+    around the line write are the stream-kind test and I/O faults, never the frame's content."""
+    from ..core import switches
+    from ..prov import fields_read
+    P = ctx.prog
+    ctx.rule('C03.5', 'the per-thread sidecar mirrors every continuity frame: in ContinuityStreamCache::append_best_effort no branch on the frame\'s own fields (kind, seq, id, ...) can bypass the line write; the only early exits are the stream-kind test and I/O failures. The same holds for the truth append: EventLog::append has no branch on the event at all.')
+    f = P.fn('ripd::continuity_stream_cache::ContinuityStreamCache::append_best_effort')
+    ctx.touch(f)
+    writes = f.calls(r'std::io::Write>::write_all$')
+    if not writes:
+        raise CheckError('C03.5: append_best_effort has no write_all')
+    w0 = [w for w in writes if all(f.dom(w.bb, x.bb) for x in writes)]
+    w0 = w0[0] if w0 else writes[0]
+    rets = f.returns()
+    n = 0
+    bad = []
+    for (bi, on, ts, els) in switches(f):
+        if not f.can_reach(bi, w0.bb):
+            continue
+        flds = fields_read(f, on, 'rip_kernel::Event')
+        src = sources(f, on)
+        via_kind_call = any(x[0] == 'call' and x[1].endswith('Event::stream_kind') for x in src)
+        if not flds:
+            continue
+        n += 1
+        if via_kind_call and not flds:
+            continue
+        for tgt in set(list(ts.values()) + [els]):
+            if not f.must_pass([w0.bb], tgt, rets):
+                bad.append((bi, sorted(flds)))
+    ctx.ob('C03.5', f, 'no-content-filter-before-write', not bad,
+           '%d branch(es) on the frame precede the sidecar write; %s' % (n, 'none of them (other than the stream-kind test) can bypass the write' if not bad else
+                                                                          'a branch on Event.%s can skip the write: such frames are in the log but never in the sidecar' % bad[0][1]), line=w0.line)
+    app = P.fn('rip_log::EventLog::append')
+    sw_on_event = []
+    for (bi, on, ts, els) in switches(app):
+        if fields_read(app, on, 'rip_kernel::Event'):
+            sw_on_event.append(bi)
+    ctx.ob('C03.5', app, 'truth-append-unconditional', not sw_on_event, 'EventLog::append has %d branch(es) on the event' % len(sw_on_event), line=app.line)
